@@ -27,7 +27,7 @@ contract(M + "_special_constraints_eq_zero", props=["C02"], trusted=True,
               "checked by the bounded stand-in (C02 special-form clauses)")
 
 _F = "(den(self) - old(den(self)))"
-contract(M + "PCBO.add_constraint_eq_zero", props=["C02", "C06", "C19"],
+contract(M + "PCBO.add_constraint_eq_zero", props=["C02", "C06", "C16", "C19"], taint=["lam"],
          instances=[{"self": "model:PCBO", "P": p, "lam": "real", "bounds": b, "suppress_warnings": "const:False"}
                     for p in PK for b in BND],
          requires=["wf(self)", "lam > 0", "isint(bden(P))", "encloses(bounds, bden(P))",
@@ -65,7 +65,7 @@ def _gate(name, truth, arities, first=None):
                 for ak in ("label", "model:PUBO"):
                     inst.append({"self": "model:PCBO", "a": ak, "variables": ops, "lam": "real"})
     allops = "variables" if first is None else "(a,) + variables"
-    contract(M + "PCBO." + name, props=["C06"],
+    contract(M + "PCBO." + name, props=["C06", "C16"], taint=["lam"],
              instances=inst,
              requires=["wf(self)", "lam > 0", "opsvalid(%s)" % allops, "all01(%s)" % allops,
                        "distinct_from(self, %s)" % allops],
@@ -85,7 +85,7 @@ def _gate1(name, truth, two=False):
         else:
             inst.append({"self": "model:PCBO", "a": ak, "lam": "real"})
     allops = "(a, b)" if two else "(a,)"
-    contract(M + "PCBO." + name, props=["C06"],
+    contract(M + "PCBO." + name, props=["C06", "C16"], taint=["lam"],
              instances=inst,
              requires=["wf(self)", "lam > 0", "opsvalid(%s)" % allops, "all01(%s)" % allops,
                        "distinct_from(self, %s)" % allops],
@@ -138,7 +138,7 @@ contract(M + "_special_constraints_le_zero", props=["C02"], trusted=True,
 
 
 def _ineq(name, holds, loops=None):
-    contract(M + "PCBO." + name, props=["C02", "C19"],
+    contract(M + "PCBO." + name, props=["C02", "C16", "C19"], taint=["lam"],
              instances=[{"self": "model:PCBO", "P": p, "lam": "real", "log_trick": "bool", "bounds": b,
                          "suppress_warnings": "const:False"}
                         for p in ("termdict", "model:PUBO", "model:PCBO") for b in ("none", "tuple:real,real", "tuple:none,real")],
@@ -179,7 +179,7 @@ _ineq2("add_constraint_gt_zero", "bden(P) > 0", "bden(P) - 1")
 # clause (2) differs per branch (it is inherited from > / < or uses the sign ancilla) and stays bounded.
 _SGN = "(slackval(pre(self._ancilla), visited, log_trick) if xv(anclabel(pre(self._ancilla) - 1)) == 1 else " \
        "-slackval(pre(self._ancilla), visited, log_trick))"
-contract(M + "PCBO.add_constraint_ne_zero", props=["C02", "C19"],
+contract(M + "PCBO.add_constraint_ne_zero", props=["C02", "C16", "C19"], taint=["lam"],
          instances=[{"self": "model:PCBO", "P": p, "lam": "real", "log_trick": "bool", "bounds": b,
                      "suppress_warnings": "const:False"}
                     for p in ("termdict", "model:PUBO", "model:PCBO") for b in ("none", "tuple:real,real", "tuple:none,real")],
